@@ -48,6 +48,11 @@ func ruleSelects(ev *MEv, S uint8, C []int) bool {
 
 func (e *Engine) checkSubscriptions(sh *Shadow) *Violation {
 	s := sh.S
+	if got := s.W.IsLocked(); got != e.locked() {
+		v := e.sv(sh, nil, "world with a restricted listener: IsLocked()=%v but %d queries are open", got, len(e.Open))
+		v.Class = "lock-ledger"
+		return v
+	}
 	full := e.lastGot
 	cmp := func(name string, sub Sub, got []Ev) *Violation {
 		var exp []MEv
